@@ -80,7 +80,7 @@ class GeckoHelloProtocolHandler(GeckoUdpProtocolHandler):
             self._client_identifier = content
 
         else:
-            self._spa_identifier, spa_name = content.split(b"|")
+            self._spa_identifier, spa_name = content.split(b"|", 1)
             self._spa_name = spa_name.decode(GeckoConstants.MESSAGE_ENCODING)
 
     def __repr__(self) -> str:
